@@ -9,5 +9,6 @@ INVARIANT RejectIsTerminal
 INVARIANT TMImplIsProp
 INVARIANT TMRobust
 INVARIANT KrumChecks
+INVARIANT KrumImplIsProp
 INVARIANT Export
 CHECK_DEADLOCK FALSE
